@@ -116,6 +116,8 @@ def strat_case():
 
 def body_random(ctx, case):
     (fam, M), k, sel, dtype = case
+    if k > 10 and M.shape[1] ** M.shape[0] > 4000:
+        k = 10      # bounds the O(n^2) prefix joining of the decoder; unpruned runs need C^T <= 4000
     run_case(ctx, fam, M, k, sel, dtype)
 
 
@@ -129,7 +131,7 @@ def strat_unnorm():
     from hypothesis import strategies as st
     return st.tuples(logprob_matrix(families=["gauss", "peaky", "script"]), st.integers(0, 7),
                      st.sampled_from([2e-4, -2e-4, 1e-3, 0.1, -0.5, 3.0, 5e-7, -5e-7, 0.0]),
-                     st.sampled_from([1, 3, 10000]))
+                     st.sampled_from([1, 3, 40]))
 
 
 def body_unnorm(ctx, case):
